@@ -598,6 +598,7 @@ static void myth_sched_loop(void)
   if (first_run){
     //sanity check
     myth_assert(first_run->status==MYTH_STATUS_READY);
+    MYTH_VERIF_EVENT("sched.run", first_run, env->rank);
     env->this_thread=first_run;
     first_run->env=env;
     //Switch to runnable thread
@@ -631,6 +632,7 @@ static void myth_sched_loop(void)
       {
 	//sanity check
 	myth_assert(next_run->status==MYTH_STATUS_READY);
+	MYTH_VERIF_EVENT("sched.run", next_run, env->rank);
 	env->this_thread=next_run;
 	next_run->env=env;
 	//Switch to runnable thread
